@@ -1296,6 +1296,81 @@ fn bytes_stream(driver: &Driver, seed: u64, n: u64) -> Stream {
     st
 }
 
+/// the byte-level open path of the model (`OpenBytes.openB`) on whole files — generated bases and what
+/// `save` made of them — against `Backend::read_xref_table_and_trailer`
+fn open_stream(driver: &Driver, seed: u64, n: u64) -> Stream {
+    use pdf::backend::Backend;
+    let mut st = Stream::new("c09.open", true);
+    let real = |bytes: &Vec<u8>| -> String {
+        let r = catch_unwind(AssertUnwindSafe(|| {
+            let start = match bytes.locate_start_offset() { Ok(s) => s, Err(_) => return "err".to_string() };
+            // a storage with an empty table: its resolver only serves the bytes of stream data
+            let helper = match Storage::with_cache(bytes.clone(), ParseOptions::strict(), NoCache, NoCache, NoLog) { Ok(s) => s, Err(_) => return "err".to_string() };
+            let rr = { let res = helper.resolver(); bytes.read_xref_table_and_trailer(start, &res) };
+            match rr {
+                Ok((t, tr)) => {
+                    let size = tr.get("Size").and_then(|p| p.as_integer().ok()).map(|x| x.to_string()).unwrap_or("?".into());
+                    let prev = match tr.get("Prev") { None => "n".to_string(), Some(p) => p.as_integer().map(|x| x.to_string()).unwrap_or("?".into()) };
+                    let es: Vec<String> = (0..t.len()).map(|i| match t.get(i as u64).unwrap() {
+                        XRef::Free { next_obj_nr, gen_nr } => format!("f.{}.{}", next_obj_nr, gen_nr),
+                        XRef::Raw { pos, gen_nr } => format!("r.{}.{}", pos, gen_nr),
+                        XRef::Stream { stream_id, index } => format!("s.{}.{}", stream_id, index),
+                        XRef::Promised => "P".into(),
+                        XRef::Invalid => "I".into(),
+                    }).collect();
+                    format!("ok {} {} {} {}", start, size, prev, es.join(","))
+                }
+                Err(_) => "err".to_string(),
+            }
+        }));
+        r.unwrap_or_else(|_| "panic".into())
+    };
+    let mut reqs = vec![];
+    let mut imps = vec![];
+    for case in 0..n {
+        let mut rng = Rng::derive(seed, "c09.open", case);
+        let o = opts_for(&mut rng);
+        let base = gen_base(&mut rng, o);
+        st.count("file=base");
+        reqs.push(format!("c09.open {}", crate::driver::hex(&base.bytes)));
+        imps.push(real(&base.bytes));
+        // one or two saves on top
+        let r = catch_unwind(AssertUnwindSafe(|| -> Vec<Vec<u8>> {
+            let mut out = vec![];
+            if let Ok(mut ex) = Exec::open(&base, NoCache, NoCache) {
+                let mut marker = 800_000u64;
+                for _ in 0..1 + rng.usize(2) {
+                    for _ in 0..1 + rng.usize(3) {
+                        marker += 1;
+                        let v = gen_val(&mut rng, marker, true);
+                        ex.values.insert(marker, v);
+                        if rng.chance(1, 2) || base.updatable.is_empty() {
+                            ex.apply(&HOp::Create(marker));
+                        } else {
+                            ex.apply(&HOp::Update(*rng.pick(&base.updatable), marker, false));
+                        }
+                    }
+                    let (_, a, _) = ex.apply(&HOp::Save);
+                    if a.starts_with("ok") {
+                        out.push(ex.last_bytes.clone());
+                    }
+                }
+            }
+            out
+        }));
+        for f in r.unwrap_or_default() {
+            st.count("file=saved");
+            reqs.push(format!("c09.open {}", crate::driver::hex(&f)));
+            imps.push(real(&f));
+        }
+    }
+    let resp = driver.ask(&reqs);
+    for ((rq, m), i) in reqs.iter().zip(resp.iter()).zip(imps.iter()) {
+        st.case(rq, m, i, i.starts_with("ok"));
+    }
+    st
+}
+
 /// `byte_len` through `write_stream`: a table whose largest field is `n` gets /W [1 byte_len(n) …]
 fn bytelen_stream(driver: &Driver, seed: u64, thorough: bool) -> Stream {
     let mut st = Stream::new("c09.bytelen", true);
@@ -1614,6 +1689,7 @@ pub fn run(driver: &Driver, seed: u64, thorough: bool, replay: Option<&Value>) -
     rep.oracles.push(witnesses());
     rep.streams.push(bytelen_stream(driver, seed, thorough));
     rep.streams.push(bytes_stream(driver, seed, if thorough { 20_000 } else { 1500 }));
+    rep.streams.push(open_stream(driver, seed, if thorough { 5_000 } else { 300 }));
     let (st, or) = histories(driver, seed, 0, if thorough { 60_000 } else { 6000 }, false);
     rep.streams.push(st);
     rep.oracles.push(or);
